@@ -532,6 +532,9 @@ async fn handle(env: Rc<Env>, programs: Rc<Vec<HandlerProgram>>, mut req: Reques
     if prog.force_close {
         rb.force_close();
     }
+    if prog.force_keep_alive {
+        rb.keep_alive();
+    }
     if let Some(n) = prog.no_chunking {
         rb.no_chunking(n);
     }
